@@ -88,8 +88,11 @@ func pushScenario(t *rapid.T, restartFocus bool) sim.Scenario {
 			if rapid.IntRange(0, 14).Draw(t, "badparams") == 0 {
 				st.Out = "badparams" // refused before anything is sent
 			} else {
-				if rapid.IntRange(0, 5).Draw(t, "rawparams") == 0 {
+				switch rapid.IntRange(0, 7).Draw(t, "rawparams") {
+				case 0:
 					st.Out = "rawparams" // pre-encoded, with line feeds: a push like any other
+				case 1:
+					st.Out = "bigparams" // a few hundred bytes of parameters
 				}
 				if kind == "callback" {
 					callbacks = append(callbacks, pushes)
